@@ -368,8 +368,10 @@ def _diff(a):
 
 def option_cases():
     cs = []
-    vals = {"boundary": ["extend", "fill", {"X": "periodic"}], "fill_value": [5.0, -2.0, {"X": 1.5}],
-            "boundary_width": [{"X": (1, 0)}], "pad_before_func": [True, False]}
+    # mappings naming the operated axis and mappings naming only the *other* axis: a call-time mapping replaces the
+    # bound one as a whole (an axis it does not name falls back to the Grid's own setting, not to the bound mapping)
+    vals = {"boundary": ["extend", "fill", {"X": "periodic"}, {"Y": "extend"}], "fill_value": [5.0, -2.0, {"X": 1.5}, {"Y": 7.0}],
+            "boundary_width": [{"X": (1, 0)}, {"Y": (0, 0)}], "pad_before_func": [True, False]}
     for opt, vs in vals.items():
         for d in [None] + vs:
             for c in [None] + vs:
@@ -442,6 +444,49 @@ def run_option(rec, case, seed):
                       got[:2] + ((np.frombuffer(got[2]).tolist(),) if got[0] == "ok" else ()))
 
 
+# ------------------------------------------------------------------ two-axis halos under map_overlap
+def _stencil2(a):
+    # trailing axes: first signature axis extended by (1, 1), second by (0, 1)
+    return a[..., 1:-1, :-1] * 2.0 + a[..., :-2, :-1] - a[..., 2:, 1:]
+
+
+def run_overlap2d(rec, seed):
+    """each signature axis is extended by the width declared *for that axis*, whatever the listing order of
+    boundary_width, also when the function is mapped over dask blocks"""
+    from xgcm.grid_ufunc import apply_as_grid_ufunc, as_grid_ufunc
+
+    g = grid()
+    nx, ny = NS["X"], NS["Y"]
+    vals = ((np.arange(2 * nx * ny) * 5 + seed) % 11).astype(float).reshape(2, nx, ny) + 1
+    base = xr.DataArray(vals, dims=["t", "xc", "yc"])
+    kw = dict(boundary={"X": "fill", "Y": "extend"}, fill_value={"X": 3.0, "Y": 0.0})
+    for names in (("X", "Y"), ("a", "b"), ("Y", "X")):
+        A, B = names
+        sig = f"({A}:center,{B}:center)->({A}:center,{B}:center)"
+        for order in ("sig-order", "reversed"):
+            bw = {A: (1, 1), B: (0, 1)} if order == "sig-order" else {B: (0, 1), A: (1, 1)}
+            for route in ("function", "decorator"):
+                for chunks in ({"t": 1, "xc": nx, "yc": ny}, {"t": 2, "xc": (2, nx - 2), "yc": ny}, {"t": 1, "xc": (1,) * nx, "yc": (1,) * ny}):
+                    case = dict(kind="overlap2d", names=list(names), order=order, route=route, chunks={k: list(v) if isinstance(v, tuple) else v for k, v in chunks.items()})
+                    rec.case(("ov2", names, order, route, repr(chunks)), True, sample=case)
+                    try:
+                        with warnings.catch_warnings():
+                            warnings.simplefilter("ignore")
+                            want = apply_as_grid_ufunc(_stencil2, base, axis=[("X", "Y")], grid=g, signature=sig, boundary_width=dict(bw), **kw)
+                            if route == "function":
+                                got = apply_as_grid_ufunc(_stencil2, base.chunk(chunks), axis=[("X", "Y")], grid=g, signature=sig, boundary_width=dict(bw),
+                                                          dask="allowed", map_overlap=True, **kw)
+                            else:
+                                got = as_grid_ufunc(signature=sig, boundary_width=dict(bw), dask="allowed", map_overlap=True)(_stencil2)(
+                                    g, base.chunk(chunks), axis=[("X", "Y")], **kw)
+                            got = got.compute()
+                    except Exception as e:
+                        rec.violation("overlap2d", "raise:" + exc_sig(e), case, "same as the in-memory call", f"{type(e).__name__}: {e}"[:200])
+                        continue
+                    if got.dims != want.dims or not np.array_equal(got.values, want.values):
+                        rec.violation("overlap2d", "values", case, want.values, got.values)
+
+
 # ------------------------------------------------------------------ rejections
 def run_rejections(rec, seed):
     from xgcm.grid_ufunc import apply_as_grid_ufunc
@@ -491,7 +536,7 @@ def run_rejections(rec, seed):
 def shards(tier, seed):
     n = len(signatures())
     sh = [("sigs", lo, min(lo + 150, n)) for lo in range(0, n, 150)]
-    sh += [("options",), ("rejections",)]
+    sh += [("options",), ("rejections",), ("overlap2d",)]
     return sh
 
 
@@ -505,6 +550,8 @@ def run_shard(shard, tier, seed, rec):
     elif shard[0] == "options":
         for c in option_cases():
             run_option(rec, c, seed)
+    elif shard[0] == "overlap2d":
+        run_overlap2d(rec, seed)
     else:
         run_rejections(rec, seed)
 
@@ -515,6 +562,10 @@ def replay_case(case, seed, rec):
         run_case(rec, case["si"], case["bi"], case["sched"], seed)
     elif k == "option":
         run_option(rec, dict(kind="option", opt=case["opt"], d=_tup(case["d"]), c=_tup(case["c"])), seed)
+    elif k == "overlap2d":
+        rec.MAXVIOL = 10 ** 6
+        run_overlap2d(rec, seed)
+        rec.viol = [v for v in rec.viol if v["case"] == case]
     else:
         run_rejections(rec, seed)
         rec.viol = [v for v in rec.viol if v["case"].get("what") == case.get("what") and v["case"].get("text") == case.get("text")]
